@@ -88,7 +88,7 @@ fn chain(loc: &Location) -> Vec<String> {
     let mut v = Vec::new();
     let mut src = Rc::clone(&loc.code.source);
     while let Source::Alias { original, alias } = &*Rc::clone(&src) {
-        v.push(alias.name.clone());
+        v.push(unspell(&alias.name));
         src = Rc::clone(&original.code.source);
     }
     v.reverse();
@@ -196,7 +196,7 @@ pub fn parse_with(text: &str, tb: Option<&Table>) -> Obs {
     let gl = tb.map(|t| {
         let mut set = AliasSet::new();
         for d in t {
-            set.insert(HashEntry::new(d.name.clone(), render_value(d), d.g, Location::dummy("alias")));
+            set.insert(HashEntry::new(render_name(&d.name), render_value(d), d.g, Location::dummy("alias")));
         }
         Counting { set, count: Cell::new(0) }
     });
